@@ -465,49 +465,10 @@ Global Instance FpTwoAdicLaws : TwoAdicLaws Fp := {|
 |}.
 
 (* ---------------------------------------------------------------- div_rem (Newton inversion path)
-   The defining identity of division with remainder does NOT hold for the code's div_rem: the
-   model (which agrees with the implementation on these inputs, see checks/c15.py) returns a
-   remainder of degree >= deg b.  Two independent causes in division.rs:
-   (1) inv_mod_xn appends the Newton correction `b` after trimming it, so a correction with leading
-       zero coefficients lands at the wrong offset (and `a.coeffs.drain(n..)` can then panic);
-   (2) `rev_q.rev()` trims before reversing, dropping low-order zero coefficients of the quotient. *)
-Definition fpl (l : list Z) : list Fp := map toFp l.
-
-Theorem div_rem_newton_refuted :
-  exists a b : list Fp, degree_plus_one b <> 0%nat /\ div_rem a b <> None /\
-    forall q r, div_rem a b = Some (q, r) -> ~ (degree_plus_one r < degree_plus_one b)%nat.
-Proof.
-  (* (X^3 + X) / (X^2 + 1): cause (2) *)
-  exists (fpl [0; 1; 0; 1]%Z), (fpl [1; 0; 1]%Z).
-  assert (C : match div_rem (fpl [0; 1; 0; 1]%Z) (fpl [1; 0; 1]%Z) with
-              | Some (q, r) => Nat.ltb (degree_plus_one r) (degree_plus_one (fpl [1; 0; 1]%Z)) = false
-              | None => False end) by (vm_compute; reflexivity).
-  split; [vm_compute; discriminate|]. split.
-  - intros E. rewrite E in C. exact C.
-  - intros q r E. rewrite E in C. apply Nat.ltb_ge in C. lia.
-Qed.
-
-Theorem inv_mod_xn_refuted :
-  exists (p : list Fp) (n : nat), (0 < n)%nat /\ nth 0 p 0%F <> 0%F /\
-    (exists c, inv_mod_xn p n = Some c /\ firstn n (pmul p c) <> 1%F :: repeat 0%F (n - 1)).
-Proof.
-  (* 1 - X^2 modulo X^5: cause (1) *)
-  exists (fpl [1; 0; -1]%Z), 5%nat. split; [lia|]. split.
-  - intros E. apply (f_equal fval) in E. vm_compute in E. discriminate.
-  - assert (C : match inv_mod_xn (fpl [1; 0; -1]%Z) 5 with
-                | Some c => map fval (firstn 5 (pmul (fpl [1; 0; -1]%Z) c)) = [1; 0; 0; 1; -1 mod P]%Z
-                | None => False end) by (vm_compute; reflexivity).
-    destruct (inv_mod_xn (fpl [1; 0; -1]%Z) 5) as [c|]; [|contradiction].
-    exists c. split; [reflexivity|]. intros E. rewrite E in C. vm_compute in C. discriminate.
-Qed.
-
-Theorem inv_mod_xn_panics :
-  exists (p : list Fp) (n : nat), (0 < n)%nat /\ nth 0 p 0%F <> 0%F /\ inv_mod_xn p n = None.
-Proof.
-  exists (fpl [1; 0; -1]%Z), 4%nat. split; [lia|]. split.
-  - intros E. apply (f_equal fval) in E. vm_compute in E. discriminate.
-  - vm_compute. reflexivity.
-Qed.
+   History: the model of the code before /repo commit 119d559 refuted the defining identity here
+   (theorems div_rem_newton_refuted, inv_mod_xn_refuted, inv_mod_xn_panics: inv_mod_xn appended the
+   trimmed Newton correction at the wrong offset, and div_rem trimmed rev_q before reversing it).
+   Both defects were repaired by that commit; the model mirrors the repaired code. *)
 
 (* ---------------------------------------------------------------- interpolation (partial results) *)
 Local Open Scope field_scope.
